@@ -12,7 +12,10 @@
  *   meta <codec> <chunkhex>...                    sqfs_meta_writer_append per chunk + flush; codec: raw|toy|grow|trail
  *   metak <codec> <chunkhex>...                   the same with KEEP_IN_MEMORY + sqfs_meta_write_write_to_file
  *   table <codec> <base> <datahex>                sqfs_write_table on a file that already holds <base> bytes
- *   blk <codec> <flags> <datahex>                 static process_block() of block_processor.c
+ *   blk <codec> <flags> <datahex>                 static process_block() of block_processor.c, then the static
+ *                                                 process_completed_block() of backend.c on the result (block writer
+ *                                                 stubbed): iw = the word it stores in the inode's block list,
+ *                                                 fw = the word it stores in the fragment table ('-' = untouched)
  *   ids <id>...                                   sqfs_id_table_id_to_index per id, then sqfs_id_table_write
  *   idsrange <n>                                  the same for ids 0..n-1
  *   codec <gzip|xz|lz4|lz4hc|zstd> <outsize> <datahex>   the real backend's do_block (compress), then uncompress
@@ -24,6 +27,7 @@
 #include "lib/sqfs/src/dir_writer.c"
 #undef DIR_INDEX_THRESHOLD
 #include "lib/sqfs/src/block_processor/block_processor.c"
+#include "lib/sqfs/src/block_processor/backend.c"
 #include "sqfs/id_table.h"
 #include "sqfs/compressor.h"
 #include "hexio.h"
@@ -334,6 +338,11 @@ static void op_meta(int keep)
 	sqfs_drop(m);
 }
 
+static int stub_write_block(sqfs_block_writer_t *wr, void *user, sqfs_u32 size, sqfs_u32 checksum, sqfs_u32 flags,
+			    const sqfs_u8 *data, sqfs_u64 *location)
+{ (void)wr; (void)user; (void)size; (void)checksum; (void)flags; (void)data; *location = 4242; return 0; }
+static sqfs_block_writer_t stub_writer = { { 1, NULL, NULL }, stub_write_block, NULL };
+
 static void op_blk(void)
 {
 	sqfs_compressor_t *c;
@@ -348,7 +357,26 @@ static void op_blk(void)
 	b->flags = (sqfs_u32)strtoul(toks[2], NULL, 10); b->size = n; memcpy(b->data, d, n);
 	rc = process_block(w, b);
 	if (rc) printf("err %d\n", rc);
-	else { printf("%u ", b->flags); hex_print(stdout, b->data, b->size); putchar('\n'); }
+	else {
+		sqfs_block_processor_t *proc = calloc(1, sizeof(*proc));
+		sqfs_inode_generic_t *inode = calloc(1, sizeof(*inode));
+		sqfs_fragment_t info;
+		sqfs_u32 idx = 0;
+		printf("%u ", b->flags); hex_print(stdout, b->data, b->size);
+		inode->base.type = SQFS_INODE_FILE;
+		proc->wr = &stub_writer;
+		proc->frag_tbl = sqfs_frag_table_create(0);
+		sqfs_frag_table_append(proc->frag_tbl, 0, 0xFFFFFFFF, &idx);
+		b->inode = &inode; b->index = idx;
+		rc = process_completed_block(proc, b);
+		if (rc) printf(" err %d\n", rc);
+		else {
+			if (inode->payload_bytes_used >= sizeof(sqfs_u32)) printf(" iw=%u", inode->extra[0]); else fputs(" iw=-", stdout);
+			if (sqfs_frag_table_lookup(proc->frag_tbl, idx, &info) == 0 && info.size != 0xFFFFFFFF) printf(" fw=%u\n", info.size);
+			else puts(" fw=-");
+		}
+		sqfs_drop(proc->frag_tbl); free(inode); free(proc);
+	}
 	free(w); free(b); free(d);
 }
 
